@@ -445,6 +445,46 @@ func TestReplayC18(t *testing.T) {
 	}
 }
 
+// ---- C13: instances do not interfere (bounded: a few concurrent schedules under the race detector)
+
+func TestBoundedC13(t *testing.T) {
+	rs := recs(40, 13)
+	want := map[string][]byte{}
+	for name, codec := range codecs {
+		want[name] = writeFile(t, rs, 7, []int{25, 15}, codec)
+	}
+	// dirty the pools with other workloads first
+	for i := 0; i < 5; i++ {
+		writeFile(t, recs(60+i, int64(i)), 3, []int{60 + i}, Snappy)
+	}
+	done := make(chan string, 64)
+	n := 0
+	for g := 0; g < 8; g++ {
+		for name, codec := range codecs {
+			n++
+			go func(name string, codec func(*ParquetWriter) error, g int) {
+				got := writeFile(t, rs, 7, []int{25, 15}, codec)
+				if !bytes.Equal(got, want[name]) {
+					done <- fmt.Sprintf("REPLAY-FAIL C13 codec=%s goroutine=%d: output differs from the sequential run of the same history", name, g)
+					return
+				}
+				back, err := readAll(bytes.NewReader(got))
+				if err != nil || len(back) != len(rs) {
+					done <- fmt.Sprintf("REPLAY-FAIL C13 codec=%s goroutine=%d: concurrent read back failed: %v", name, g, err)
+					return
+				}
+				done <- ""
+			}(name, codec, g)
+		}
+	}
+	for i := 0; i < n; i++ {
+		if m := <-done; m != "" {
+			t.Error(m)
+		}
+	}
+	t.Logf("BOUNDED-C13 goroutines=%d", n)
+}
+
 // ---- C12: statistics
 
 func TestReplayC12(t *testing.T) {
